@@ -61,6 +61,11 @@ pub struct Case {
     /// drive the sync on until a request of this kind is in flight (6 = do not drive)
     pub drive: u8,
     pub attacks: Vec<Attack>,
+    /// 0: nothing. Otherwise, before the attacks, the peers' chain grows by more than last_n blocks and its NEW TIP claims a
+    /// malformed epoch (same epoch number as the header the client has proven, other length / index; zero length; index
+    /// beyond the length): a PoW-valid block with consistent commitments which every peer serves and proves honestly
+    #[serde(default)]
+    pub hostile_tip: u8,
 }
 
 pub struct C10;
@@ -756,11 +761,11 @@ impl Property for C10 {
             1 => Just(Attack::Connect),
             1 => Just(Attack::Disconnect),
         ];
-        (chain_params(maxlen), any::<bool>(), net_params(), prop::collection::vec(reg_spec(), 0..3), prop::collection::vec(op, 0..40), 0u8..8, prop::collection::vec(attack, 1..5))
-            .prop_map(|(mut chain, dummy_pow, mut net, initial, prefix, drive, attacks)| {
+        (chain_params(maxlen), any::<bool>(), net_params(), prop::collection::vec(reg_spec(), 0..3), prop::collection::vec(op, 0..40), 0u8..8, prop::collection::vec(attack, 1..5), prop_oneof![5 => Just(0u8), 1 => 1u8..8])
+            .prop_map(|(mut chain, dummy_pow, mut net, initial, prefix, drive, attacks, hostile_tip)| {
                 chain.len = chain.len.max(10);
                 net.last_n %= 4;
-                Case { chain, dummy_pow, net, initial, prefix, drive, attacks }
+                Case { chain, dummy_pow, net, initial, prefix, drive, attacks, hostile_tip }
             })
             .boxed()
     }
@@ -831,6 +836,46 @@ fn run_inner(case: &Case, sim: &mut Sim, last_n: u64, interval: u64, obs: &mut O
                 obs.label("prefix-ended-by-ban");
                 return Ok(());
             }
+        }
+    }
+    if case.hostile_tip != 0 {
+        // some peer has to be proven first
+        guarded("honest drain before the hostile tip".into(), &history, || {
+            sim.w.drain(60, |_| false);
+        })?;
+        let proven = sim.w.connected_peers().iter().find_map(|p| sim.w.c().peers.get_state(&p.index).and_then(|s| s.get_prove_state().map(|ps| ps.get_last_header().header().clone())));
+        if let (Some(ph), None) = (proven, ended_by_ban(&sim.w)) {
+            let main = sim.main;
+            let pe = ph.epoch();
+            let (num, idx_p, len_p) = (pe.number(), pe.index(), pe.length());
+            let claimed = match case.hostile_tip % 7 {
+                // same epoch number, other length; the index is smaller although the fraction index/length is not
+                1 => (num, idx_p.saturating_sub(1), (len_p / 3).max(1)),
+                2 => (num, idx_p / 2, (len_p / 2).max(1)),
+                3 => (num, 0, 0),
+                4 => (num, len_p + 3, len_p),
+                5 => (num, idx_p, len_p),
+                6 => (num.saturating_sub(1), idx_p + 1, len_p),
+                _ => (0, 0, 0),
+            };
+            let grow = last_n + 2 + case.chain.seed % 3;
+            sim.w.chains[main].mine_n(grow - 1);
+            sim.w.chains[main].epoch_override = Some(claimed);
+            history.push(format!("hostile tip after {} blocks claiming epoch {}({}/{}) while the proven header is in {}({}/{})", grow, claimed.0, claimed.1, claimed.2, num, idx_p, len_p));
+            obs.label("hostile-chain-tip-with-malformed-epoch");
+            let h = history.clone();
+            guarded("hostile tip announced, proof requested and served".into(), &h, || {
+                sim.w.grow(main, 1);
+                sim.w.drain(30, |_| false);
+            })?;
+            // banned peers leave, the network re-dials
+            let banned: Vec<_> = sim.w.bans().iter().map(|(p, _)| *p).collect();
+            for p in banned {
+                if sim.w.peer(p).map(|x| x.connected).unwrap_or(false) {
+                    sim.w.disconnect(p);
+                }
+            }
+            sim.w.shared.banned.lock().unwrap().clear();
         }
     }
     let mut prng = Prng::new(case.chain.seed ^ 0x10c);
